@@ -125,6 +125,21 @@ def corr(ctx):
         D = int(rng.integers(2, 9))
         lead = U.lead_shape(rng)
         target, noise, cmax, tkind = _pair(rng, lead, D)
+        # dtype mix: a PSD handed over with a real (float or integer) dtype - e.g. a real-symmetric model of the target or of
+        # the noise - next to a complex one
+        dmix = str(rng.choice(['complex', 'complex', 'complex', 'real-target', 'int-target', 'real-noise']))
+        if dmix == 'real-target':
+            target = np.ascontiguousarray(target.real)
+        elif dmix == 'int-target':
+            ti = np.round(target.real * 8).astype(np.int64)
+            ti = ti + np.swapaxes(ti, -1, -2)               # symmetric integer matrix; keep it only if it is still PSD
+            if np.all(np.linalg.eigvalsh(ti.astype(float))[..., 0] >= 0) and np.all(np.trace(ti, axis1=-1, axis2=-2) > 0):
+                target = ti
+            else:
+                dmix = 'complex'
+        elif dmix == 'real-noise':
+            noise = np.ascontiguousarray(noise.real)
+        ctx.count(f'corr-dtypes:{dmix}')
         ue = bool(i % 2)
         scaling = SCALINGS[i % 3]
         ctx.count(f'corr-D{D}')
@@ -424,6 +439,19 @@ def search(ctx):
         D = int(rng.integers(2, 9))
         lead = U.lead_shape(rng)
         target, noise, cmax, tkind = _pair(rng, lead, D)
+        dmix = str(rng.choice(['complex', 'complex', 'complex', 'real-target', 'int-target', 'real-noise']))
+        if dmix == 'real-target':
+            target = np.ascontiguousarray(target.real)
+        elif dmix == 'int-target':
+            ti = np.round(target.real * 8).astype(np.int64)
+            ti = ti + np.swapaxes(ti, -1, -2)
+            if np.all(np.linalg.eigvalsh(ti.astype(float))[..., 0] >= 0) and np.all(np.trace(ti, axis1=-1, axis2=-2) > 0):
+                target = ti
+            else:
+                dmix = 'complex'
+        elif dmix == 'real-noise':
+            noise = np.ascontiguousarray(noise.real)
+        ctx.count(f'search-dtypes:{dmix}')
         ue = bool(i % 2)
         scaling = SCALINGS[i % 3]
         ctx.count(f'search-D{D}')
